@@ -239,6 +239,24 @@ def build(case, d):
                 + ' ) )')
             if hd is not None:
                 add(fname, True, '( ' + lhs + 'equals ' + hd + rhs + ' )')
+    # --- family: equals against a DIFFERENT text of the SAME SIZE, both operands files of the home directory that carry
+    # the same modification time (set by the harness): whatever way the two files are compared, it is their contents
+    # that count
+    pos = [k for k, ch in enumerate(t) if ch.isascii() and ch.isalnum()]
+    if pos:
+        k = pos[-1]
+        same = t[:k] + ('b' if t[k] != 'b' else 'a') + t[k + 1:]
+        files['same.txt'] = same.encode('utf-8')
+        hsubj = 'contents -rel-home t.txt : '
+        fam.append(('equals-neg-samesize', False, hsubj + '! equals -contents-of -rel-home same.txt'))
+        fam.append(('equals-neg-samesize', False, hsubj + '! ( equals -contents-of -rel-home same.txt -transformed-by identity )'))
+        fam.append(('equals-neg-samesize', False, hsubj + '-transformed-by identity ! equals -contents-of -rel-home same.txt'))
+        fam.append(('equals-neg-samesize', False, hsubj + '( ! equals -contents-of -rel-home same.txt && '
+                                                          '! equals -contents-of -rel-home same.txt )'))
+        fam.append(('equals-neg-samesize', False, 'contents -rel-home same.txt : ! equals -contents-of -rel-home t.txt'))
+        hd4 = _heredoc(same)
+        if hd4 is not None:
+            fam.append(('equals-neg-samesize', False, hsubj + '! equals ' + hd4))
     # --- family: whole-string consumer
     has_a = 'a' in t
     variants('matches', has_a, 'matches a', simple=False)
@@ -351,6 +369,9 @@ def run_case(case, ctx):
     text = _case_text(setup, act, [a for (_, _, a) in fam])
     files['t.case'] = text
     driver.write_files(d, files)
+    if 'same.txt' in files:
+        for n in ('t.txt', 'same.txt'):
+            os.utime(os.path.join(d, n), (1600000000, 1600000000))
     viol = []
     inconc = []
     classes = []
